@@ -2,7 +2,7 @@
 
    Model: XV.XmlFmt (XMLFormatter: prepare, every handler, _xpath, _make_diff_tags, finalize), tied to
    xmldiff/formatting.py by harness/xmlfmt_corr.py on every run; projections: XV.Projections.accept.
-   Only statements here; proofs in XV.XmlFmtProofs0-9, A.
+   Only statements here; proofs in XV.XmlFmtProofs0-9, R2, A, D.
 
    Vocabulary
      L, root              the PREPARED left document as an id-indexed forest (XV.Forest): comment-free;
@@ -16,33 +16,43 @@
                           namespace map (root declarations, then InsertNamespace) and names are printable XPath names
                           (as PatcherProofs.script_ok; checkable by computation);
      names_plain          attribute actions do not name attributes of the diff namespace;
-     run_ok               side conditions on the RUN of the model (XmlFmtProofs4.step_ok at every step): a text update
-                          meets a text that carries no diff markup yet (each text is updated at most once), a node is
-                          renamed at most once, inserted tags are not diff:insert/delete/replace, action texts contain no
-                          private-use character, the tail of the root is not updated.  True of Differ scripts; evaluated
-                          by the harness (run_okb) on every generated script (a TESTED premise, reported as such);
+     run_ok               side conditions on the RUN of the model (XmlFmtProofs4.step_ok and room_ok at every step): a
+                          text update meets a text that carries no diff markup yet (each text is updated at most once), a
+                          node is renamed at most once, inserted tags are not diff:insert/delete/replace, action texts
+                          contain no private-use character, the tail of the root is not updated; and, with use_replace
+                          only, the maker has a free private-use code point for every character of the new text of a text
+                          update (it allocates one diff:replace opener per replaced segment, 6393 in all).  True of
+                          Differ scripts on documents of ordinary size; evaluated by the harness (run_okb) on every
+                          generated script (a TESTED premise, reported as such);
      npua W, clean_tags W, nodiff W   the document has no private-use character in texts/tails, no element named
                           diff:insert/delete/replace, no attribute in the diff namespace;
      xequiv ws a b        equal up to attribute order, absent vs empty text, the tail of the root, and -- when
                           ws = normalize & WS_TEXT -- whitespace normalisation of every text and tail.
 
-   PARTIAL: proved for configurations without text tags and without use_replace.  Missing for the full statement:
-   (1) text_tags <> []: the property then speaks of the flattened content of text tags only; covered by the
-       correspondence check and the accept oracle (harness/xmlfmt_corr.py: project), not by a theorem;
-   (2) use_replace = true (the maker then grows by one placeholder per replaced text): covered by correspondence +
-       oracle only;
-   (3) the premise run_ok is a condition on the run rather than a consequence of "script = Differ output". *)
+   PARTIAL: proved for configurations without text tags, with or without use_replace (a replaced text is a
+   diff:replace wrapper: its content is the new text, read by accept; XmlFmtProofsR2, XmlFmtProofs3).  Missing for the
+   full statement:
+   (1) text_tags <> []: the property then speaks of the flattened content of text tags only.  Proved at the level of
+       the STRING one text update writes (C09_texttag_update_flat_partial, use_replace = false): read flattened with
+       every marked change accepted it is the flattened new text.  "Flattened" = the sequence of characters and of
+       child-element placeholders (as table keys, diff marks removed), the placeholders that stand for the start and
+       the end of formatting elements ERASED -- that is the meaning of "up to where formatting elements begin and end":
+       nothing is said about where they start and stop, nor about their marks.  NOT proved: the tree level (finalize
+       with nested formatting elements, then Projections.accept), and that prepare() builds makers and strings with
+       the premises pinv / capart / wf_cls / txt_ok; covered by the correspondence check and the accept oracle
+       (harness/xmlfmt_corr.py: project).  With text tags format() can also fail (C08_texttags_refuted);
+   (2) the premise run_ok is a condition on the run rather than a consequence of "script = Differ output". *)
 From Coq Require Import List NArith ZArith Bool.
 Import ListNotations.
 Require Import XV.Str XV.Json XV.TextFormat XV.Forest XV.Matcher XV.Differ XV.Spec XV.Path XV.WF XV.PathProofs XV.Render
-               XV.XmlFmt XV.Projections XV.XmlFmtProofs3 XV.XmlFmtProofs4 XV.XmlFmtProofs5 XV.XmlFmtProofs9 XV.XmlFmtProofsA XV.XmlFmtProofsD.
+               XV.XmlFmt XV.Projections XV.XmlFmtProofs3 XV.XmlFmtProofs4 XV.XmlFmtProofs5 XV.XmlFmtProofs9 XV.XmlFmtProofsA XV.XmlFmtProofsD XV.XmlFmtProofs2 XV.XmlFmtProofsR2 XV.XmlFmtProofsT1.
 Require XV.Placeholder XV.PlaceholderUndo XV.DMP.
 Local Open Scope N_scope.
 
 Theorem C09_accept_partial :
   forall (c : cfg) (o : oracle) (rootns : list (option str * str)) (pe : penv) (root : id)
          (L : forest) (script : list iact) (gs : list gaction) (fT : forest) (T : xtree),
-  c_tt c = [] -> c_replace c = false ->
+  c_tt c = [] ->
   wf_forest L root -> (forall m, desc L root m -> is_comment (ltag (flab L m)) = false) ->
   let W := remove_comments (doc_tree L root) in
   PlaceholderUndo.npua W = true -> clean_tags W -> nodiff W ->
@@ -60,7 +70,7 @@ Print Assumptions C09_accept_partial.
 Theorem C09_accept_differ_partial :
   forall (c : cfg) (o : oracle) (rootns : list (option str * str)) (pe : penv)
          (L R : forest) (rootL rootR : id) (m : list (id * id)) (gs : list gaction) (T : xtree),
-  c_tt c = [] -> c_replace c = false ->
+  c_tt c = [] ->
   wf_forest L rootL -> wf_forest R rootR -> valid_matching L R rootL rootR m ->
   (forall x, desc L rootL x -> is_comment (ltag (flab L x)) = false) ->
   let s := gen_script [] R rootR L rootL m in
@@ -73,6 +83,41 @@ Theorem C09_accept_differ_partial :
   xequiv (ws_text c) (accept T) (remove_comments (doc_tree R rootR)).
 Proof. intros c o rootns pe L R rootL rootR m gs T _. exact (accept_differ c o rootns pe L R rootL rootR m gs T). Qed.
 Print Assumptions C09_accept_differ_partial.
+
+(* WITH text tags (use_replace = false), one text update, at the level of the string written into node.text:
+     s               the maker after prepare(): pinv s (table invariants; a marked element key holds the element it
+                     was filed with; the keys of the four wrapper placeholders are attribute-free), capart s (the close
+                     placeholder of a formatting element is not a wrapper placeholder), wf_cls (the close placeholder of
+                     an OPEN entry is a CLOSE entry);
+     txt_ok s c      a character of the two texts is not a wrapper placeholder, and is a placeholder of s (if it stands
+                     for an element, the element carries none of diff:insert/delete(-formatting)) or lies outside the
+                     private-use range;
+     flat0 s y       the flattened content of y: characters and element placeholders (atom_of: the table key of the
+                     element, the four marks removed), OPEN / CLOSE placeholders erased;
+     fl true s' false x   x read flattened with every marked change accepted (XmlFmtProofsT1). *)
+Theorem C09_texttag_update_flat_partial :
+  forall (c : cfg) (o : oracle) (s : Placeholder.state) (left right : str) (s' : Placeholder.state) (x : str) (any : bool),
+  c_replace c = false -> pinv s -> DMP.wf_cls (cls_of s) -> capart s ->
+  Forall (txt_ok s) left -> Forall (txt_ok s) right ->
+  make_diff_tags c o s left right false = FOk (s', x, any) -> Placeholder.ctr s' <= Placeholder.PUA_END ->
+  fl true s' false x = flat0 s (norm_if c right).
+Proof.
+  intros c o s left right s' x any H1 H2 H3 H4 H5 H6 H7 H8.
+  exact (proj1 (proj2 (text_update_flat c o s left right s' x any H1 H2 H3 H4 H5 H6 H7 H8))).
+Qed.
+Print Assumptions C09_texttag_update_flat_partial.
+
+(* non-vacuity: a maker with one element placeholder, a<i k="v"/>b -> ab: the premises hold, the update writes
+   a, the placeholder of the copy marked diff:delete, b *)
+Example C09_texttag_example :
+  (pinv ex_s /\ capart ex_s /\ DMP.wf_cls (cls_of ex_s) /\
+   Forall (txt_ok ex_s) [97; ex_c; 98] /\ Forall (txt_ok ex_s) [97; 98]) /\
+  exists s' x any,
+    make_diff_tags ex_cfg ex_o ex_s [97; ex_c; 98] [97; 98] false = FOk (s', x, any) /\
+    fl true s' false x = flat0 ex_s [97; 98] /\ fl false s' false x = flat0 ex_s [97; ex_c; 98] /\
+    flat0 ex_s [97; ex_c; 98] = [AC 97; atom_of ex_el; AC 98] /\ x = [97; 57352; 98].
+Proof. exact (conj ex_premises ex_flat). Qed.
+Print Assumptions C09_texttag_example.
 
 (* without text tags prepare() only removes the comments and leaves the maker as created: the state and the
    tree xml_format is started with above are the ones main.diff_trees hands to format() *)
@@ -135,7 +180,7 @@ Proof.
   destruct (xml_format exC exO [] Placeholder.ph_init gs (remove_comments (doc_tree exL 0%nat))) as [T|e] eqn:E3.
   2:{ exfalso. revert E3. vm_compute in E2. inversion E2; subst gs. vm_compute. discriminate. }
   exists gs, fT, T. split; [reflexivity|]. split; [reflexivity|]. split; [exact E3|].
-  apply (C09_accept_partial exC exO [] exPe 0%nat exL exS gs fT T eq_refl eq_refl).
+  apply (C09_accept_partial exC exO [] exPe 0%nat exL exS gs fT T eq_refl).
   - apply wf_forestb_sound. vm_compute. reflexivity.
   - intros m Hm. assert (Hin : In m (doc_nodes exL 0%nat)).
     { apply TreeProofs.doc_nodes_iff; [apply wf_forestb_sound; vm_compute; reflexivity|exact Hm]. }
@@ -151,3 +196,42 @@ Proof.
   - exact E3.
 Qed.
 Print Assumptions C09_example.
+
+(* Non-vacuity with use_replace: the same script; "xy" -> "xz" becomes x<diff:replace old-text="y">z</diff:replace> *)
+Definition exC2 : cfg := Cfg 0 true [] [].
+Example C09_example_replace :
+  exists gs fT T,
+    run_spec 0%nat exL exS = Some fT /\ render_script exPe 0%nat exL exS = Some gs /\
+    xml_format exC2 exO [] Placeholder.ph_init gs (remove_comments (doc_tree exL 0%nat)) = FOk T /\
+    xequiv (ws_text exC2) (accept T) (remove_comments (doc_tree fT 0%nat)).
+Proof.
+  destruct (run_spec 0%nat exL exS) as [fT|] eqn:E1; [|vm_compute in E1; discriminate].
+  destruct (render_script exPe 0%nat exL exS) as [gs|] eqn:E2; [|vm_compute in E2; discriminate].
+  destruct (xml_format exC2 exO [] Placeholder.ph_init gs (remove_comments (doc_tree exL 0%nat))) as [T|e] eqn:E3.
+  2:{ exfalso. revert E3. vm_compute in E2. inversion E2; subst gs. vm_compute. discriminate. }
+  exists gs, fT, T. split; [reflexivity|]. split; [reflexivity|]. split; [exact E3|].
+  apply (C09_accept_partial exC2 exO [] exPe 0%nat exL exS gs fT T eq_refl).
+  - apply wf_forestb_sound. vm_compute. reflexivity.
+  - intros m Hm. assert (Hin : In m (doc_nodes exL 0%nat)).
+    { apply TreeProofs.doc_nodes_iff; [apply wf_forestb_sound; vm_compute; reflexivity|exact Hm]. }
+    vm_compute in Hin. destruct Hin as [<-|[<-|[<-|[]]]]; reflexivity.
+  - vm_compute. reflexivity.
+  - repeat (constructor; try reflexivity).
+  - repeat (constructor; try reflexivity).
+  - exact E1.
+  - exact E2.
+  - apply fscript_okb_sound. vm_compute. reflexivity.
+  - repeat constructor; reflexivity.
+  - apply run_okb_sound. vm_compute in E2. inversion E2; subst gs. vm_compute. reflexivity.
+  - exact E3.
+Qed.
+Print Assumptions C09_example_replace.
+
+(* the output of that run does carry a diff:replace wrapper *)
+Example C09_example_replace_has_wrapper :
+  exists gs T, render_script exPe 0%nat exL exS = Some gs /\
+    xml_format exC2 exO [] Placeholder.ph_init gs (remove_comments (doc_tree exL 0%nat)) = FOk T /\
+    existsb (fun k => match wrapper_kind k with Some WRep => true | _ => false end)
+            (flat_map Placeholder.xkids (Placeholder.xkids T)) = true.
+Proof. eexists _, _. split; [vm_compute; reflexivity|]. split; vm_compute; reflexivity. Qed.
+Print Assumptions C09_example_replace_has_wrapper.
